@@ -33,8 +33,8 @@ type c20Flags struct {
 	args    []string
 }
 
-func (c20Flags) ExtraUsage() string     { return "" }
-func (c20Flags) AddExtraUsage(string)   {}
+func (c20Flags) ExtraUsage() string      { return "" }
+func (c20Flags) AddExtraUsage(string)    {}
 func (f c20Flags) Parse(func()) []string { return f.args }
 func (f c20Flags) Bool(s string, d bool, _ string) *bool {
 	if b, ok := f.bools[s]; ok {
@@ -95,10 +95,10 @@ func (u *c20UI) add(args []interface{}) {
 	u.msgs = append(u.msgs, fmt.Sprint(args...))
 	u.mu.Unlock()
 }
-func (u *c20UI) Print(args ...interface{})         { u.add(args) }
-func (u *c20UI) PrintErr(args ...interface{})      { u.add(args) }
-func (u *c20UI) IsTerminal() bool                  { return false }
-func (u *c20UI) WantBrowser() bool                 { return false }
+func (u *c20UI) Print(args ...interface{})           { u.add(args) }
+func (u *c20UI) PrintErr(args ...interface{})        { u.add(args) }
+func (u *c20UI) IsTerminal() bool                    { return false }
+func (u *c20UI) WantBrowser() bool                   { return false }
 func (u *c20UI) SetAutoComplete(func(string) string) {}
 func (u *c20UI) messages() []string {
 	u.mu.Lock()
